@@ -34,9 +34,9 @@ func Validate(namespaces []*Namespace) (*Environment, error) {
 		validateStreams,
 		buildSymbolTable,
 		resolveTypes,
-		validateMaps,
 		assignUnionCaseTags,
 		topologicalSortTypes,
+		validateMaps,
 		convertGenericReferences,
 		validateUnionCases,
 		validateEnums,
